@@ -341,7 +341,7 @@ class GateMonitor(WireTracker):
                     st["ce_accepted"] = self.acceptable(s.cer_variant)
                 elif f.h.code == 257 and not f.h.is_request and s.kind == "dialled" and st["ce_in"] is None and s.cea_variant is not None:
                     st["ce_in"] = (s.cea_variant, f.h.ident(), t)
-                    if s.cea_variant == "ok":
+                    if s.cea_variant in ("ok", "okcase"):
                         st["ce_ok"] = True
                 else:
                     st["traffic"] = True
@@ -960,7 +960,7 @@ class GroundTruth(WireTracker):
             if f.h.code == 257 and f.h.is_request and s is not None and g["kind"] == "accepted":
                 g["cer"] = s.cer_variant
                 g["cer_host"] = s.host
-            if f.h.code == 257 and not f.h.is_request and g["kind"] == "dialled" and s is not None and s.cea_variant == "ok":
+            if f.h.code == 257 and not f.h.is_request and g["kind"] == "dialled" and s is not None and s.cea_variant in ("ok", "okcase"):
                 g["ce_ok"] = True
                 g["identified"] = True
             if f.h.code == 282 and f.h.is_request and g["ce_ok"]:
